@@ -30,7 +30,7 @@ def main():
     not_app = [{"property_id": p, "reason": na.get(p, "check not built yet in this round; see DESIGN.md")} for p in props if p not in frags]
     man = {
         "version": 1,
-        "setup_cmd": "python3 tools/gen_coqproject.py && cd coq && timeout 3000 make -j16",
+        "setup_cmd": "python3 tools/gen_coqproject.py && cd coq && (timeout 3000 make -k -j16 || echo setup: some files did not build, the checks that depend on them will report it)",
         "hooks": {"guard": "IOFLO_HIO_VERIF", "enable": "no hooks needed: checks import /repo/src unmodified (PYTHONPATH=/repo/src); ./check exports IOFLO_HIO_VERIF=1 for uniformity",
                   "baseline_off_cmd": BASELINE.replace("--junitxml=<file>", "--junitxml=/var/tmp/hio-baseline.junit.xml"),
                   "source_commits": [], "add_only": True},
